@@ -1,21 +1,28 @@
 """C04 — buffers and builders keep objects intact across growth, commit, rollback, purge
 (DESIGN.md §3 C04).
 
-1. proof stage: lean/Osmium/Props/C04.lean built + axiom audit.
+1. proof stage: lean/Osmium/Props/C04.lean built + axiom audit (buf_inv both halves for all scripts,
+   capacity_independent, built_content via the bridge to HostileLayout.build, purge_spec, laws).
 2. correspondence: op scripts interpreted by harness/c04.cpp on the REAL Buffer + builders (ASan +
    UBSan) and by the compiled Lean model (lean/Driver/C04.lean); for every script EVERY capacity
    that is a multiple of 8 from 64 to (total size + 64) x 3 grow modes; after every op
    (cap, written, committed, nested?) and after every commit the item tree + hex are compared.
+   Scripts: hand-written per mechanism, corpus/C04/*.ops, random.
 3. property monitors on the implementation alone:
    * every `dump` must equal an independent Python statement of the expected view (what was passed
      to the builders; commit/rollback/clear/add_buffer/push_back/setrm/purge on a list of trees),
      for every capacity and mode — content exactness and capacity independence at once;
    * final `dumpall` must equal the one of the same script at a huge capacity;
    * mode `no`: buffer_is_full exactly at the first op whose size does not fit, committed prefix intact;
+   * byte-level walks of every dump: top-level items end exactly at `committed`; every OSM object's
+     size is a multiple of 8 and its sub-item walk ends exactly at its end;
    * purge: callbacks / resulting bytes vs an independent Python oracle working on the hex dump;
+   * regression probe `discussion-pending-comment-unfinished`: a ChangesetDiscussionBuilder destroyed
+     with a pending comment must leave a well-formed discussion (/repo 5690f83);
    * an ASan/UBSan report is a failing input.
-Known finding F4 (ChangesetDiscussionBuilder::m_comment dangling across a reallocation) is
-reported with the stable key `discussion-comment-stale-pointer`.
+Finding F4 (ChangesetDiscussionBuilder::m_comment dangling across a reallocation; fixed in /repo
+d30efa2) is re-detected with the stable key `discussion-comment-stale-pointer` if it comes back; the
+check determines on every run which builder variant the source has (`fix`) and runs the model in it.
 """
 import concurrent.futures
 import os
@@ -1098,11 +1105,33 @@ def run(ctx):
                 hexs = payload.split(' | ')[-1]
                 raw = bytes.fromhex(hexs) if hexs != '-' else b''
                 pos = 0
+                subwalk = None
                 while pos + 8 <= len(raw):
                     size = int.from_bytes(raw[pos:pos + 4], 'little')
+                    ty = int.from_bytes(raw[pos + 4:pos + 6], 'little')
                     if size < 8:
                         break
+                    if 1 <= ty <= 5 and not s.artificial:
+                        # an OSM object / changeset: its size is the sum of the padded sizes of what it contains, hence a
+                        # multiple of 8, and the walk over its sub-items must end exactly at its end
+                        if ty == 5:
+                            sub = pos + (56 + int.from_bytes(raw[pos + 48:pos + 50], 'little') + 7) // 8 * 8
+                        else:
+                            szt = 40 if ty == 1 else 32
+                            sub = pos + (szt + 2 + int.from_bytes(raw[pos + szt:pos + szt + 2], 'little') + 7) // 8 * 8
+                        end = pos + size
+                        while sub + 8 <= end:
+                            ssz = int.from_bytes(raw[sub:sub + 4], 'little')
+                            if ssz < 8:
+                                break
+                            sub += (ssz + 7) // 8 * 8
+                        if size % 8 != 0 or sub != end:
+                            subwalk = 'item at %d (type %d): size %d, sub-item walk ends at %d, expected %d' % (pos, ty, size, sub - pos, size)
+                            break
                     pos += (size + 7) // 8 * 8
+                if subwalk:
+                    viol = ('sub-item-walk', 'after op #%d: %s' % (i, subwalk))
+                    break
                 if pos != len(raw) or len(raw) != co_:
                     viol = ('item-walk', 'after op #%d the committed bytes are not a sequence of padded items (walk ends at %d of %d)' % (i, pos, len(raw)))
                     break
